@@ -206,9 +206,6 @@ Proof.
   { cbn [app]. rewrite dec_scalar_bd by (consts; lia). scal.
     destruct pos; [|discriminate]. cbn [uint_result]. unfold norm_uint.
     replace (v - 1 + 1) with v by lia. reflexivity. }
-  assert (Hd : forall u r, v = u -> dec_scalar d (if pos then vdPosInt else vdNegInt)
-            0 st (v :: r) = Ok (uint_result d pos v, r, st) -> True) by auto.
-  clear Hd.
   assert (Hres : forall vs r',
      dec_uint vs r' = Ok (v, rest) -> vs < 16 ->
      dec d (S rf) lf dep st (mkbd (if pos then vdPosInt else vdNegInt) vs :: r') = Ok (uint_result d pos v, rest, st)).
@@ -1409,3 +1406,92 @@ Lemma total_fuel : forall (rf : nat) (o : dopts) (lf : nat) (dep : N) (st : dsta
   (1 <= rf)%nat -> maxdepth o <= N.of_nat rf + dep -> (2 * length inp + 1 <= lf)%nat ->
   dec o rf lf dep st inp <> OutOfFuel /\ skip o rf lf dep st inp <> OutOfFuel.
 Proof. intros. split; [apply dec_not_oof|apply skip_not_oof]; assumption. Qed.
+
+(* ================= every decoded value is shallower than MaxDepth ================= *)
+
+Lemma dec_scalar_depth0 : forall o vd vs st r x r' st',
+  dec_scalar o vd vs st r = Ok (x, r', st') -> depth x = 0%nat.
+Proof.
+  intros o vd vs st r x r' st'. unfold dec_scalar.
+  repeat match goal with
+         | |- context [if ?c then _ else _] =>
+             match c with
+             | (_ =? _) => destruct c
+             end
+         end; intros H; try discriminate H;
+    try (inversion H; subst; try reflexivity; destruct (signedInt o); reflexivity).
+  - bind_in H. split_pairs. inversion H; subst. destruct (signedInt o); reflexivity.
+  - bind_in H. split_pairs. inversion H; subst. reflexivity.
+  - bind_in H. split_pairs. inversion H; subst. reflexivity.
+  - bind_in H. split_pairs. bind_in H. split_pairs. inversion H; subst. reflexivity.
+  - bind_in H. split_pairs. bind_in H. split_pairs. inversion H; subst. destruct (rawToString o); reflexivity.
+  - bind_in H. split_pairs. inversion H; subst. reflexivity.
+  - bind_in H. split_pairs. bind_in H. split_pairs. inversion H; subst. reflexivity.
+  - bind_in H. split_pairs. destruct l as [|t r2]; [discriminate|].
+    bind_in H. split_pairs. inversion H; subst. reflexivity.
+Qed.
+
+Lemma loopN_Forall : forall A (f : nat -> dstate -> list N -> res (A * list N * dstate)) (P : A -> Prop),
+  (forall g st inp x r st', f g st inp = Ok (x, r, st') -> P x) ->
+  forall g m st inp xs r st', loopN f g m st inp = Ok (xs, r, st') -> Forall P xs.
+Proof.
+  intros A f P Hf. induction g as [|g IH]; intros m st inp xs r st' H.
+  - cbn [loopN] in H. destruct (m =? 0); [|discriminate]. inversion H; subst. constructor.
+  - cbn [loopN] in H. destruct (m =? 0). { inversion H; subst. constructor. }
+    bind_in H. split_pairs. bind_in H. split_pairs. inversion H; subst.
+    constructor; [eapply Hf; eauto|eapply IH; eauto].
+Qed.
+
+Lemma key_norm_depth : forall k, depth (key_norm k) = depth k.
+Proof. destruct k; reflexivity. Qed.
+
+Lemma loopM_Forall : forall (d : nat -> dstate -> list N -> res (item * list N * dstate)) (P : item -> Prop),
+  (forall k, P k -> P (key_norm k)) ->
+  (forall g st inp x r st', d g st inp = Ok (x, r, st') -> P x) ->
+  forall g m seen st inp xs r st', loopM d g m seen st inp = Ok (xs, r, st') ->
+    Forall (fun kv => P (fst kv) /\ P (snd kv)) xs.
+Proof.
+  intros d P Hk Hf. induction g as [|g IH]; intros m seen st inp xs r st' H.
+  - cbn [loopM] in H. destruct (m =? 0); [|discriminate]. inversion H; subst. constructor.
+  - cbn [loopM] in H. destruct (m =? 0). { inversion H; subst. constructor. }
+    bind_in H. split_pairs. destruct l as [|b0 l]; [discriminate|].
+    destruct (unhashable i); [discriminate|]. destruct (existsb _ seen); [discriminate|].
+    bind_in H. split_pairs. bind_in H. split_pairs. inversion H; subst.
+    constructor; [cbn [fst snd]; split; [apply Hk|]; eapply Hf; eauto|eapply IH; eauto].
+Qed.
+
+Lemma fold_max_arr : forall (b : nat) l, Forall (fun x => (depth x <= b)%nat) l ->
+  (fold_right (fun x m => Nat.max (depth x) m) 0 l <= b)%nat.
+Proof. intros b l H. induction H; cbn [fold_right]; lia. Qed.
+
+Lemma fold_max_map : forall (b : nat) (l : list (item * item)),
+  Forall (fun kv => (depth (fst kv) <= b)%nat /\ (depth (snd kv) <= b)%nat) l ->
+  (fold_right (fun kv m => Nat.max (Nat.max (depth (fst kv)) (depth (snd kv))) m) 0 l <= b)%nat.
+Proof. intros b l H. induction H as [|kv r [H1 H2] Hr IH]; cbn [fold_right]; lia. Qed.
+
+Lemma dec_depth_ok : forall rf o lf dep st inp x r st',
+  dep < maxdepth o -> dec o rf lf dep st inp = Ok (x, r, st') -> N.of_nat (depth x) + dep < maxdepth o.
+Proof.
+  induction rf as [|rf IH]; intros o lf dep st inp x r st' Hdep H; [discriminate|].
+  cbn [dec] in H. destruct inp as [|bd t]; [discriminate|]. cbv zeta in H.
+  destruct (bd / 16 =? vdArray).
+  { bind_in H. split_pairs. destruct (maxdepth o <=? dep + 1) eqn:Ed; [discriminate|].
+    bind_in H. split_pairs. inversion H; subst.
+    apply (loopN_Forall _ _ (fun x => N.of_nat (depth x) + (dep + 1) < maxdepth o)) in E0.
+    2:{ intros g st0 inp0 x0 r0 st0' H0. cbv beta in H0. eapply IH; [|exact H0]. lia. }
+    cbn [depth].
+    assert (Hb : (fold_right (fun x m => Nat.max (depth x) m) 0 l0 <= N.to_nat (maxdepth o - dep - 2))%nat).
+    { apply fold_max_arr. eapply Forall_impl; [|exact E0]. cbv beta. intros; lia. }
+    lia. }
+  destruct (bd / 16 =? vdMap).
+  { bind_in H. split_pairs. destruct (maxdepth o <=? dep + 1) eqn:Ed; [discriminate|].
+    bind_in H. split_pairs. inversion H; subst.
+    apply (loopM_Forall _ (fun x => N.of_nat (depth x) + (dep + 1) < maxdepth o)) in E0.
+    2:{ intros k Hk. rewrite key_norm_depth. exact Hk. }
+    2:{ intros g st0 inp0 x0 r0 st0' H0. cbv beta in H0. eapply IH; [|exact H0]. lia. }
+    cbn [depth].
+    assert (Hb : (fold_right (fun kv m => Nat.max (Nat.max (depth (fst kv)) (depth (snd kv))) m) 0 l0 <= N.to_nat (maxdepth o - dep - 2))%nat).
+    { apply fold_max_map. eapply Forall_impl; [|exact E0]. cbv beta. intros a [? ?]; split; lia. }
+    lia. }
+  apply dec_scalar_depth0 in H. rewrite H. cbn. lia.
+Qed.
